@@ -5,7 +5,8 @@
 //! ```text
 //! H <id> <scenario> seed=<n>
 //! dev <size>
-//! cfg strict=<0|1> accdate=<0|1> clock=<const|tick> alloc=<0|1> unicode=<0|1>
+//! cfg strict=<0|1> accdate=<0|1> clock=<const|tick> alloc=<0|1> unicode=<0|1> [budget=<n>]
+//! G … | # …                   ground truth / comment lines: echoed by the executor, otherwise ignored
 //! O <seq> <op> <args…>        (for `raw <n>`: followed by n lines `w <offset> <payload>`)
 //! fault <k>
 //! E
@@ -33,6 +34,8 @@ pub struct Cfg {
     pub clock: ClockMode,
     pub alloc: bool,
     pub unicode: bool,
+    /// device-call budget per operation (hang detection); printed as a trailing `budget=<n>` only when not the default
+    pub budget: u64,
 }
 
 impl Cfg {
@@ -43,13 +46,14 @@ impl Cfg {
             clock,
             alloc: cfg!(feature = "alloc"),
             unicode: cfg!(feature = "unicode"),
+            budget: crate::dev::DEFAULT_BUDGET,
         }
     }
     pub fn default_build() -> Cfg {
         Cfg::new(true, false, ClockMode::Const)
     }
     pub fn print(&self) -> String {
-        format!(
+        let mut s = format!(
             "cfg strict={} accdate={} clock={} alloc={} unicode={}",
             self.strict as u8,
             self.accdate as u8,
@@ -59,7 +63,11 @@ impl Cfg {
             },
             self.alloc as u8,
             self.unicode as u8
-        )
+        );
+        if self.budget != crate::dev::DEFAULT_BUDGET {
+            s.push_str(&format!(" budget={}", self.budget));
+        }
+        s
     }
 }
 
@@ -162,6 +170,8 @@ pub enum Op {
 pub enum Item {
     Op { seq: u64, op: Op },
     Fault(u64),
+    /// `G …` ground-truth lines and `# …` comments: echoed, otherwise ignored
+    Comment,
     /// a line that could not be parsed; `seq` as far as it could be read
     Bad { seq: Option<u64> },
 }
@@ -197,6 +207,11 @@ impl History {
         self.next_seq += 1;
         self.items.push((print_op(seq, &op), Item::Op { seq, op }));
         seq
+    }
+
+    /// A `G …` / `# …` line (may contain several lines separated by `\n`).
+    pub fn comment(&mut self, text: String) {
+        self.items.push((text, Item::Comment));
     }
 
     pub fn fault(&mut self, k: u64) {
@@ -546,9 +561,13 @@ fn p_op(a: &[&str]) -> Option<(Op, usize)> {
 
 fn p_cfg(line: &str) -> Option<Cfg> {
     let t: Vec<&str> = line.split(' ').collect();
-    if t.len() != 6 || t[0] != "cfg" {
+    if (t.len() != 6 && t.len() != 7) || t[0] != "cfg" {
         return None;
     }
+    let budget = match t.get(6) {
+        Some(tok) => p_num::<u64>(p_kv(tok, "budget")?)?,
+        None => crate::dev::DEFAULT_BUDGET,
+    };
     Some(Cfg {
         strict: p_bool(p_kv(t[1], "strict")?)?,
         accdate: p_bool(p_kv(t[2], "accdate")?)?,
@@ -559,6 +578,7 @@ fn p_cfg(line: &str) -> Option<Cfg> {
         },
         alloc: p_bool(p_kv(t[4], "alloc")?)?,
         unicode: p_bool(p_kv(t[5], "unicode")?)?,
+        budget,
     })
 }
 
@@ -607,6 +627,8 @@ pub fn parse_block(lines: &[String]) -> Parsed {
         i += 1;
         let t: Vec<&str> = line.split(' ').collect();
         match t[0] {
+            "G" | "#" => hist.items.push((line.clone(), Item::Comment)),
+            _ if line.starts_with('#') => hist.items.push((line.clone(), Item::Comment)),
             "fault" => {
                 let item = match (t.len(), t.get(1).and_then(|s| p_num::<u64>(s))) {
                     (2, Some(k)) => Item::Fault(k),
